@@ -261,7 +261,7 @@ class QpointsPhonon:
             else:
                 dm = self._get_dynamical_matrix(q)
             if self._with_dynamical_matrices:
-                dynamical_matrices.append(dm)
+                dynamical_matrices.append(dm.copy())
             if self._with_eigenvectors:
                 eigvals, eigvecs = np.linalg.eigh(dm)
                 eigenvectors[i] = eigvecs
